@@ -22,7 +22,7 @@ MANIFEST = {
 }
 MANIFEST["text"] += " " + (
     'Added after the seeding waves: on the named graphs all spanning traces (pairs and jumping triples) with eight non-emitting configurations incl. widths 2-3 and a tight max_dist, which is where the DEBUG-only code paths (stopped candidates inside the non-emitting search and in pruning) are reached; this found D20 and D21. Wherever the plain match stops early, the history match / continue_with_distance / match(expand=True) is compared between the two levels as well.')
-BUDGET = {"quick": 480, "thorough": 3000}
+BUDGET = {"quick": 900, "thorough": 3000}
 RULE = ("states = (input, configuration) triples of runs (default, DEBUG+stream handler, DEBUG+null handler), transitions = matcher "
         "executions, traces validated = DEBUG results compared with the default result; non-trivial = under DEBUG the lattice contains at "
         "least one stopped entry (the code path that only exists under DEBUG ran); outcomes = canonical results.")
